@@ -5,4 +5,9 @@ SpecB == <<20, 7, 6, 4, 2, 1>>
 \* fractions that never coincide with a cumulative ratio (TieFree is checked by TLC)
 FracsA == {<<1, 10>>, <<1, 2>>, <<3, 4>>, <<9, 10>>, <<49, 50>>, <<0, 1>>, <<11, 10>>, <<2, 5>>}
 FracsB == {<<1, 10>>, <<3, 5>>, <<7, 10>>, <<9, 10>>, <<24, 25>>, <<0, 1>>, <<6, 5>>}
+SpecC == <<50, 21, 13, 8, 5, 3, 2, 1>>
+FracsC == {<<1, 10>>, <<1, 2>>, <<3, 4>>, <<9, 10>>, <<49, 50>>, <<99, 100>>, <<0, 1>>, <<11, 10>>, <<2, 5>>, <<3, 5>>, <<4, 5>>, <<19, 20>>}
+\* unbounded-depth exploration: the history is an observation variable; every action's enabledness and effect depends on
+\* <<eig, active, trimmed>> only (apart from the depth bound, lifted here), so identifying states by this view is sound
+ViewNoHist == <<eig, active, trimmed>>
 =============================================================================
